@@ -66,6 +66,26 @@ pub trait ChainStore: Send + Sync + Sized {
         Some(block)
     }
 
+    /// Get a block which has been moved into the freezer, by block header hash
+    ///
+    /// The parts of a frozen block (body, uncles, proposals, extension) are deleted from the
+    /// key-value store, every accessor has to fall back to the freezer.
+    fn get_frozen_block(&self, hash: &packed::Byte32) -> Option<BlockView> {
+        let freezer = self.freezer()?;
+        let header = self.get_block_header(hash)?;
+        if header.number() > 0 && header.number() < freezer.number() {
+            let raw_block = freezer.retrieve(header.number()).expect("block frozen")?;
+            let block = packed::BlockReader::from_compatible_slice(&raw_block)
+                .expect("checked data")
+                .to_entity()
+                .into_view();
+            // only main chain blocks are frozen
+            (&block.hash() == hash).then_some(block)
+        } else {
+            None
+        }
+    }
+
     /// Get header by block header hash
     fn get_block_header(&self, hash: &packed::Byte32) -> Option<HeaderView> {
         if let Some(cache) = self.cache()
@@ -89,6 +109,9 @@ pub trait ChainStore: Send + Sync + Sized {
 
     /// Get block body by block header hash
     fn get_block_body(&self, hash: &packed::Byte32) -> Vec<TransactionView> {
+        if let Some(block) = self.get_frozen_block(hash) {
+            return block.transactions();
+        }
         let prefix = hash.as_slice();
         self.get_iter(
             COLUMN_BLOCK_BODY,
@@ -151,6 +174,10 @@ pub trait ChainStore: Send + Sync + Sized {
             return hashes.clone();
         };
 
+        if let Some(block) = self.get_frozen_block(hash) {
+            return block.tx_hashes().to_vec();
+        }
+
         let prefix = hash.as_slice();
         let ret: Vec<_> = self
             .get_iter(
@@ -182,6 +209,10 @@ pub trait ChainStore: Send + Sync + Sized {
             return Some(data.clone());
         };
 
+        if let Some(block) = self.get_frozen_block(hash) {
+            return Some(block.data().proposals());
+        }
+
         let ret = self
             .get(COLUMN_BLOCK_PROPOSAL_IDS, hash.as_slice())
             .map(|slice| {
@@ -206,6 +237,10 @@ pub trait ChainStore: Send + Sync + Sized {
             return Some(data.clone());
         };
 
+        if let Some(block) = self.get_frozen_block(hash) {
+            return Some(block.uncles());
+        }
+
         let ret = self.get(COLUMN_BLOCK_UNCLE, hash.as_slice()).map(|slice| {
             let reader = packed::UncleBlockVecViewReader::from_slice_should_be_ok(slice.as_ref());
             Into::<UncleBlockVecView>::into(reader)
@@ -227,6 +262,10 @@ pub trait ChainStore: Send + Sync + Sized {
         {
             return data.clone();
         };
+
+        if let Some(block) = self.get_frozen_block(hash) {
+            return block.extension();
+        }
 
         let ret = self
             .get(COLUMN_BLOCK_EXTENSION, hash.as_slice())
@@ -460,6 +499,9 @@ pub trait ChainStore: Send + Sync + Sized {
 
     /// Gets cellbase by block hash
     fn get_cellbase(&self, hash: &packed::Byte32) -> Option<TransactionView> {
+        if let Some(block) = self.get_frozen_block(hash) {
+            return block.transaction(0);
+        }
         let key = packed::TransactionKey::new_builder()
             .block_hash(hash.to_owned())
             .build();
@@ -489,6 +531,9 @@ pub trait ChainStore: Send + Sync + Sized {
 
     /// Gets block bytes by block hash
     fn get_packed_block(&self, hash: &packed::Byte32) -> Option<packed::Block> {
+        if let Some(block) = self.get_frozen_block(hash) {
+            return Some(block.data());
+        }
         let header = self
             .get(COLUMN_BLOCK_HEADER, hash.as_slice())
             .map(|slice| {
